@@ -14,5 +14,8 @@ Definition c07_spec_output := output_consistent_tol_b.
 Definition c07_spec_proj := is_projection_tol_b.
 Definition c07_spec_mean := training_mean_tol_b.
 Definition c07_spec_affine := affine_tol_b.
+(* wave 3: tolerance relative to the output, |y_c - s_c| <= eps * sum_t |P t c| |x t - m t| *)
+Definition c07_spec_proj_rel := is_projection_rel_b.
+Definition c07_spec_rows_rel := rows_rel_b.
 Extraction "c07_model.ml" c07_mean c07_project c07_mpi c07_tail c07_mean_range c07_project_range c07_tail_range
-  c07_spec_output c07_spec_proj c07_spec_mean c07_spec_affine Q2Qc this.
+  c07_spec_output c07_spec_proj c07_spec_mean c07_spec_affine c07_spec_proj_rel c07_spec_rows_rel Q2Qc this.
